@@ -32,6 +32,8 @@ func init() {
 			{ID: "C01-R6", Title: "string indexing/slicing: code-point indices and byte offsets are kept apart (shared with C16-R5)", Floor: 10, Run: unitsRule},
 			{ID: "C01-R7", Title: "operators that build a new container give it storage of its own (shared with C16-R2)", Floor: 5, Run: c16r2},
 			{ID: "C01-R8", Title: "the dispatch loop keeps no stale copy of frame state", Floor: 1, Run: dispatchUsesLiveFrameState},
+			{ID: "C01-R9", Title: "compile functions meet their stack contract on all paths (shared with C04-R2)", Floor: 35, Run: c04r2},
+			{ID: "C01-R10", Title: "break/continue land at the loop's label heights (shared with C04-R3)", Floor: 5, Run: c04r3},
 			{ID: "C01-R5", Title: "lexical scoping: nearest-scope-first resolution, per-activation variable storage (shared with C02-R2/R3)", Floor: 5, Run: func(c *core.Ctx) { c02r2(c); c02r3(c); c02r4(c); c02r5(c); c02r6(c) }},
 		},
 	})
